@@ -117,9 +117,10 @@ StepNode(e) ==
           \* C03: after GST no node may run more than the bound ahead of where it was
           \cup FailIf(gst.on /\ post.height = 1 /\ post.round > gst.round + e.bound,
                       [l |-> l, inv |-> "BoundedRounds", class |-> "round bound exceeded after GST"])
-     \* what receiveRoutine writes to the WAL before it handles the input: every message and timeout, but not the
-     \* peers' +2/3 claims (the reactor applies VoteSetMaj23 to the vote sets directly, consensus/reactor.go)
-     /\ wlog' = [wlog EXCEPT ![n] = IF e.m.t \in {"claim_prevote", "claim_precommit"} THEN @
+     \* what receiveRoutine writes to the WAL before it handles the input: every message and timeout.  A peer's +2/3
+     \* claim is an input of receiveRoutine only if the reactor hands it over through the peer queue (e.logged, observed
+     \* by the driver on the real Reactor.Receive); applied by the reactor directly it is in no log
+     /\ wlog' = [wlog EXCEPT ![n] = IF e.m.t \in {"claim_prevote", "claim_precommit"} /\ ~e.logged THEN @
                                      ELSE Append(@, [ev |-> e.ev, m |-> e.m, peer |-> e.peer, k |-> e.k])]
      /\ UNCHANGED <<dec, gst>>
 
